@@ -199,8 +199,11 @@ def main():
     for i, case in enumerate(job["cases"]):
         signal.alarm(int(job.get("timeout", 300)))
         try:
-            r = check_case(case, job.get("seed", 0) + i, entity_mode=job.get("entity_mode", "random"),
-                           options_override=job.get("options_override"))
+            if job.get("expressions"):
+                r = check_expression_case(case, job.get("seed", 0) + i)
+            else:
+                r = check_case(case, job.get("seed", 0) + i, entity_mode=job.get("entity_mode", "random"),
+                               options_override=job.get("options_override"))
         except CaseTimeout:
             r = {"id": case["id"], "code": case["code"], "status": "timeout", "kernels": []}
         except BaseException as e:  # noqa: BLE001
@@ -209,6 +212,85 @@ def main():
             signal.alarm(0)
         res.append(r)
     pickle.dump(res, open(sys.argv[2], "wb"))
+
+
+
+
+def check_expression_case(case, seed):
+    """expression kernels against oracle.reference_expression."""
+    import ufl
+    out = {"id": case["id"], "code": case["code"], "status": "ok", "kernels": []}
+    rng = np.random.default_rng(seed)
+    try:
+        objs, options, ns = ffx.build_case(case["code"])
+        exprs = [o for o in objs if isinstance(o, tuple)]
+        if not exprs:
+            out["status"] = "skipped"
+            return out
+        cap = ffx.compile_case(exprs, options)
+    except CaseTimeout:
+        raise
+    except BaseException as e:  # noqa: BLE001
+        out["status"] = "rejected"
+        out["error"] = f"{type(e).__name__}: {e}"[:300]
+        return out
+    scalar = str(cap.options["scalar_type"])
+    b = runc.CBuild(cap.code[0], cap.code[1])
+    if not b.ok:
+        out["status"] = "gcc_failed"
+        out["error"] = b.log[:400]
+        return out
+    for k, (expr, points) in zip(cap.kernels, exprs):
+        kr = {"name": ffx.kernel_name(k), "integral_type": "expression"}
+        try:
+            con = ffx.kernel_contract(cap, k)
+            if con["mixed_mesh"]:
+                raise oracle.Unsupported("several meshes")
+            coeffs = ufl.algorithms.extract_coefficients(expr)
+            consts = ufl.algorithms.analysis.extract_constants(expr)
+            doms = ufl.domain.extract_domains(expr)
+            if not doms:
+                raise oracle.Unsupported("expression without a mesh")
+            mesh = max(doms, key=lambda d: d.topological_dimension)
+            ents = list(range(con["e_range"][0], max(con["e_range"][1], 1))) if con["ne"] else [None]
+            worst = 0.0
+            for ent in ents:
+                dd = inputs.make(con, rng, scalar)
+                wvals, off = {}, 0
+                for cf in coeffs:
+                    n = int(cf.ufl_element().dim)
+                    wvals[cf] = [dd["w"][off:off + n]]
+                    off += n
+                cvals, off = {}, 0
+                for c in consts:
+                    n = int(np.prod(c.ufl_shape, dtype=int))
+                    cvals[c] = dd["c"][off:off + n]
+                    off += n
+                cell = oracle.Cell(mesh, dd["x"])
+                if ent is not None:
+                    dd["e"][0] = ent
+                dd["p"][:] = 0
+                A = np.zeros_like(dd["A"])
+                runc.call_kernel(b.kernel(kr["name"]), A, dd["w"], dd["c"], dd["x"], dd["e"], dd["p"])
+                exp = oracle.reference_expression(expr, np.asarray(points, dtype=float), cell, wvals, cvals, entity=ent).reshape(-1)
+                tol = 2e-4 if scalar in ("float32", "complex64") else 1e-9
+                scale = max(np.max(np.abs(exp)), 1e-12)
+                err = float(np.max(np.abs(A - exp)) / scale) if A.shape == exp.shape else float("inf")
+                worst = max(worst, err)
+                if err > tol:
+                    kr.update(status="mismatch", entity=ent, error=err, observed=[float(x) for x in np.real(A[:12])],
+                              expected=[float(x) for x in np.real(exp[:12])])
+                    break
+            else:
+                kr.update(status="agree", error=worst, entities=len(ents))
+        except oracle.Unsupported as e:
+            kr.update(status="unsupported", why=str(e))
+        except CaseTimeout:
+            raise
+        except Exception as e:  # noqa: BLE001
+            kr.update(status="oracle_error", why=f"{type(e).__name__}: {e}", tb=traceback.format_exc()[-800:])
+        out["kernels"].append(kr)
+    return out
 
 
 if __name__ == "__main__":
